@@ -23,8 +23,8 @@ CHECKS = {
     "C13": ("harness.checks.relayfam", "C13"),
     "C05": ("harness.checks.relayfam", "C05"),
     "C01": ("harness.checks.queryfam", "C01"),
-    "C02": ("harness.checks.queryfam", "C02"),
-    "C12": ("harness.checks.queryfam", "C12"),
+    "C02": [("harness.checks.queryfam", "C02"), ("harness.checks.kvscan", "C02")],
+    "C12": [("harness.checks.queryfam", "C12"), ("harness.checks.kvscan", "C12")],
     "C06": [("harness.checks.storefam", "C06"), ("harness.checks.relayfam", "C06")],
     "C08": ("harness.checks.storefam", "C08"),
     "C09": ("harness.checks.storefam", "C09"),
